@@ -1496,3 +1496,8 @@ def check(run):
     run.rule('R4', r4_rendering, 'composers, Vary: Accept, to_dict/_to_xml field sets, status tables', floor=90)
     run.rule('R5', r5_never_escapes, 'the default Exception handler always composes a 500 and raises nothing itself', floor=4)
     run.rule('R6', r6_pre_try, 'nothing client-triggerable raises before the first try of __call__', floor=60)
+    # the serialisation of an error is negotiated against Accept: a refused (q=0) range must stay in the contest so
+    # that it can veto a type (shared with C11 R8)
+    from . import c11 as _c11
+
+    run.rule('R7', _c11._safe(_c11.r8_q_never_decides_match), 'error-serializer negotiation: q never decides whether a media range matches (shared with C11 R8)', floor=5)
